@@ -207,11 +207,16 @@ def c18_writes_stay_home(ctx: Ctx):
         for call in calls_in(m.node):
             for q in ctx.P.resolve_call(call, m, by_name=False):
                 f0 = ctx.P.funcs.get(q)
+                roots = [f0] if f0 is not None else []
+                if f0 is None and q in ctx.P.classes and ctx.P.classes[q] is not c and ctx.P.classes[q] not in ctx.P.mro(c):
+                    # a package class constructed here (a file wrapper, a writer object): all of its methods count
+                    roots = list(ctx.P.classes[q].methods.values())
+                    f0 = roots[0] if roots else None
                 if f0 is None or f0.cls is c or (f0.cls is not None and f0.cls in ctx.P.mro(c)):
                     continue
                 n += 1
                 bad = []
-                for f in ctx.P.closure([f0], include_nested=True):
+                for f in ctx.P.closure(roots, include_nested=True):
                     if f.cls is c:
                         continue
                     for (scall, operand, eff, is_write) in sinks(ctx, f):
